@@ -15,6 +15,7 @@ CONSTANTS
   DerivedP = {"props", "bare", "empty"}
   DerivedC = {}
   DerivedM = {}
+  DerivedW = {"arrmax"}
   MaxOverrides = 1
   MaxRoots = 2
 CONSTRAINT GBound
